@@ -69,7 +69,8 @@ void __wrap_evutil_secure_rng_get_bytes(void *buf, size_t n)
 	memset(o, 0x55, n);
 }
 
-static DP_UNUSED void dp_quiet_log(int sev, const char *msg) { (void)sev; (void)msg; }
+/* warnings are expected by the thousands; errors (failed EVUTIL_ASSERT -> event_errx) must stay visible for the crash key */
+static DP_UNUSED void dp_quiet_log(int sev, const char *msg) { if (sev >= EVENT_LOG_ERR) { fprintf(stderr, "[err] %s\n", msg); printf("[err] %s\n", msg); fflush(stdout); } }
 static DP_UNUSED void dp_quiet_dnslog(int w, const char *msg) { (void)w; (void)msg; }
 
 /* ---- sockets ---- */
